@@ -504,6 +504,8 @@ func (p *prog) step(idx int, toks []string) *rec {
 		return r
 	case "bin":
 		return p.stepBin(toks)
+	case "un":
+		return p.stepUn(toks)
 	case "atbox":
 		t, dt := p.get(toks[1])
 		if t == nil || len(toks) != 4 {
